@@ -144,6 +144,7 @@ def run(ctx):
 
     d5_scratch_constant(db, rep)
     d6_sibling_rows(db, rep, FLOAT)
+    d7_operand_arity(db, rep)
 
 
 def d5_scratch_constant(db, rep):
@@ -228,3 +229,44 @@ def d6_sibling_rows(db, rep, FLOAT):
                   "opcode stands for, so the two back ends (and emulation) disagree on +0/-0, denormal and NaN operands" % (op, sorted(na)[0], sorted(ns)[0]), line=fa.line)
     if n < 10:
         raise AnalysisBroken("only %d single-instruction float rules present in both back ends" % n)
+
+
+def d7_operand_arity(db, rep):
+    """D7: a rule function may look at insn->src_args[k] / dest_args[k] only if the opcode it is registered for has that
+    operand.  The slot of a missing operand is 0, i.e. variable d1: its register is then encoded as an extra source - for
+    VEX instructions with a single source (vsqrtps ...) that is an invalid encoding (VEX.vvvv must be 1111b) unless the stray
+    register happens to be number 0.  Decided per (back end, opcode, rule function) registration against the opcode table."""
+    from x86guard import Backend
+    orows = {r["name"]: r for r in init_rows(db.tu("orcopcodes-sys").global_("opcodes")) if isinstance(r, dict) and r.get("name")}
+    n = 0
+    for target in ("sse", "mmx", "avx"):
+        be = Backend(db, target)
+        for fn, op, w in be.registrations():
+            if op not in orows or fn is None:
+                continue
+            try:
+                f = db.func(fn, be.rules_tu.base[:-2])
+            except AnalysisBroken:
+                continue
+            row = orows[op]
+            ss = row["src_size"] if isinstance(row["src_size"], list) else []
+            ds = row["dest_size"] if isinstance(row["dest_size"], list) else []
+            bad = []
+            for x in f.walk():
+                if x.k == "ArraySubscriptExpr" and strip_casts(x.c[1]) is not None and strip_casts(x.c[1]).v is not None:
+                    b = access_path(x.c[0]) or ""
+                    k = strip_casts(x.c[1]).v
+                    if b.endswith("->src_args") and not (k < len(ss) and ss[k]):
+                        bad.append(("src_args[%d]" % k, x.line))
+                    elif b.endswith("->dest_args") and not (k < len(ds) and ds[k]):
+                        bad.append(("dest_args[%d]" % k, x.line))
+            n += 1
+            if bad:
+                rep.saw(f)
+            rep.check(not bad, "D7-OPERAND-ARITY", where(f), "%s:%s" % (target, op),
+                      "%s reads only operands that %s has" % (fn, op),
+                      "%s, registered for `%s` on %s, reads insn->%s although the opcode has no such operand (sources %s, destinations %s): the register of "
+                      "variable 0 is passed to the emitter as an operand" % (fn, op, target, bad[0][0] if bad else "", [s_ for s_ in ss if s_], [d_ for d_ in ds if d_]),
+                      line=bad[0][1] if bad else f.line)
+    if n < 300:
+        raise AnalysisBroken("only %d rule registrations judged" % n)
